@@ -13,7 +13,7 @@ def run():
     ck.add_model('MCIsa', r, 'reciprocal.c algorithm = floor(2^(2W-1+bitlen(d))/d) for all non-power-of-two divisors, W in {4,6,8,10}; IMUL_RCP decodes to a no-op exactly for 0 and powers of two and then leaves the last-writer table unchanged; full-width IsRcp on 12 immediate classes')
     if not r['ok']:
         ck.violation('model:MCIsa', 'reciprocal model check failed', vlib.tlc_error_summary(r['out'], 40))
-    parts = ['rcp', 'rcpnoop'] + (['sweep'] if ck.thorough else [])
+    parts = ['rcp', 'rcpnoop', 'sweep']
     lines = c05.record('verif', parts, ck, wd, 'rcp')
     res = vlib.validate_sharded('TraceIsa', 'TraceIsa.cfg', lines, 'c18', shards=16, timeout=3000)
     ck.add_traces('TraceIsa', res, 'randomx_reciprocal / randomx_reciprocal_fast results; IMUL_RCP words with every no-op divisor on every register through decode and execute')
@@ -36,7 +36,7 @@ def run():
         ck.cov['sweep_divisors'] = sw[0]['divisors']
     ck.cov['evaluations'] = len(lines) + r['generated']
     ck.cov['distinct_nontrivial'] = len(set(lines)) + r['distinct']
-    ck.cov['rule'] = 'divisors 3,5,6,7,9, 2^k+-1, 2^k+2^(k-1), 2^32-1, 2^32-2, seeded random (incl. short ones); no-op divisors 0 and 2^0..2^31 x 8 destination registers; thorough: all 2^32 divisors swept in C++ with 128-bit integers (measured counts) and tied to the TLA+ definition by the sampled events'
+    ck.cov['rule'] = 'divisors 3,5,6,7,9, 2^k+-1, 2^k+2^(k-1), 2^32-1, 2^32-2, seeded random (incl. short ones); no-op divisors 0 and 2^0..2^31 x 8 destination registers; a sweep in C++ with 128-bit integers (quick: every 32nd divisor from a seeded offset = 2^27 divisors; thorough: all 2^32) as measured mismatch counts, tied to the TLA+ definition by the sampled events'
     ck.sample(lines[0])
     ck.sample([l for l in lines if l.startswith('{"e":"step"')][0][:600])
     ck.assumptions += ['the exhaustive 2^32 sweep (thorough tier) evaluates the defining inequality in C++ (unsigned __int128); TLC evaluates it on the sampled divisors only']
